@@ -15,6 +15,7 @@ CONSTANTS
   MaxOpens = 1
   MaxResp = 6
   MaxSC = 1
+  Label = FALSE
 INIT Init
 NEXT Next
 VIEW View
